@@ -21,6 +21,8 @@ struct Profile {
 	int max_sessions = 1;
 	bool wild_frag = false;     // C15: fragment sizes from the hostile list, ack games
 	bool ack_games = false;
+	bool qr_games = false;      // now and then a ping is sent with the QR bit set (a response, not a query): it must not be answered
+	bool wild = false;          // the server may serve a wildcard domain; re-deliveries may then carry the same payload under another sub-domain (a different question)
 	bool c2c = false;           // upstream packets may be addressed to another session's tunnel address (the server forwards them itself)
 	int max_actions = 60;
 	size_t max_body = 1400;
@@ -87,7 +89,7 @@ struct Run {
 	// statistics for the non-trivial rules
 	int n_redeliver = 0, n_red_cache = 0, n_red_qmem = 0, n_red_pending = 0, n_red_lastfrag = 0, n_red_case = 0, n_red_otheraddr = 0;
 	int n_multi3 = 0, n_nreq_ok = 0, n_badfrag = 0, n_dup_twice = 0, n_realsoon = 0, n_tun_via_held = 0, n_long = 0;
-	int n_cache_same = 0, n_trunc = 0, n_lost_answers = 0, n_giveup = 0, n_raw = 0, n_recycled = 0, n_recycled_data_before_n = 0, n_c2c = 0;
+	int n_cache_same = 0, n_trunc = 0, n_lost_answers = 0, n_giveup = 0, n_raw = 0, n_recycled = 0, n_recycled_data_before_n = 0, n_c2c = 0, n_red_altdomain = 0, n_qr = 0;
 	uint64_t n_data_emits = 0;
 	std::vector<std::string> classes;
 };
@@ -549,6 +551,12 @@ struct Engine {
 		std::string name = o.name; bool identical = true;
 		bool can_flip = o.ack.is_ping || p.sc.up_codec == 0;
 		if (can_flip && t.chance(1, 5)) { name = flip_case(o.name, t); identical = name == o.name; if (!identical) { p.flips++; R.n_red_case++; } }
+		if (P.wild && !R.cfg.srv_domain.empty() && t.chance(1, 3) && name.size() > p.sc.domain.size() && name.compare(name.size() - p.sc.domain.size(), std::string::npos, p.sc.domain) == 0) {
+			// the same payload under another sub-domain of the wildcard: a different question, which needs an answer of its own
+			size_t dot = p.sc.domain.find('.');
+			name = name.substr(0, name.size() - p.sc.domain.size()) + (t.chance(1, 2) ? "zz9" : "t") + "x" + p.sc.domain.substr(dot);
+			identical = false; R.n_red_altdomain++;
+		}
 		bool newid = t.chance(1, 2);
 		bool other = t.chance(1, 3);
 		uint16_t id = newid ? (uint16_t)(20000 + R.q.size() * 7 + t.below(5)) : o.id;
@@ -577,10 +585,11 @@ inline void run_sessions(Tape &t, const Profile &P, Run &R)
 	c.domain = t.chance(1, 4) ? "a.io" : "t.example.com";
 	c.srv_seed = t.u32() | 1;
 	c.nclients = 0;
+	if (P.wild && t.chance(1, 3)) { size_t dot = c.domain.find('.'); c.srv_domain = "*" + c.domain.substr(dot); }
 	R.s.reset(new scn::Session(c));
 	R.tm.attach(sim::W);
 	R.s->start_server();
-	R.wm.v = &R.v; R.wm.domain = c.domain; R.wm.srv_idx = R.s->srv->idx;
+	R.wm.v = &R.v; R.wm.domain = c.srv_domain.empty() ? c.domain : c.srv_domain; R.wm.srv_idx = R.s->srv->idx;
 	R.wm.attach(sim::W);
 	Engine E(R, t, P);
 	E.install();
@@ -618,7 +627,18 @@ inline void run_sessions(Tape &t, const Profile &P, Run &R)
 		Peer &p = *R.peers[t.below((uint32_t)R.peers.size())];
 		size_t kind = t.pick({P.w_ping, P.w_up, P.w_offer, P.w_adv, P.w_nreq, P.w_redeliver, P.w_freeze, P.w_rawmix, P.w_recycle});
 		switch (kind) {
-		case 0: E.do_ping(p, P.ack_games ? (int)t.pick({8, 2, 2, 1, 1}) : 0); last_q = sim::W.now; break;
+		case 0:
+			if (P.qr_games && t.chance(1, 12)) {
+				// a datagram that looks like one of the session's pings but is a DNS *response* (QR = 1), optionally with a non-query opcode
+				std::string name = refproto::name_ping(p.sc.userid, p.sc.dn_seq, p.sc.dn_frag, p.sc.cmc++, p.sc.domain);
+				sim::Datagram dg; dg.src = p.sc.addr; dg.dst = p.sc.server;
+				dg.data = refproto::make_query((uint16_t)(40000 + R.n_qr), name, refproto::qtype_of(p.sc.qtype_k), p.sc.edns0);
+				if (dg.data.size() > 3) dg.data[2] |= 0x80;
+				sim::W.send(dg); R.n_qr++;
+				E.note(fmt("peer%d sends a ping-shaped RESPONSE datagram (QR=1)", E.peer_index(p)));
+				break;
+			}
+			E.do_ping(p, P.ack_games ? (int)t.pick({8, 2, 2, 1, 1}) : 0); last_q = sim::W.now; break;
 		case 1: E.do_up(p); last_q = sim::W.now; break;
 		case 2: E.do_offer(p); break;
 		case 3: {
